@@ -234,6 +234,42 @@ theorem accum_eq_sum (step : Nat → σ → β → σ) (E inc : σ → ℝ)
     rw [Finset.sum_range_succ, ← add_assoc, ← ih (by omega)]
     rw [stateAt_succ step xs s0 k hk, hstep]
 
+/-- **indexed invariant**: `P i s` relates the state to the number `i` of the next element; it is
+preserved by a step on the element actually found at that position. -/
+theorem iterIdx_inv (step : Nat → σ → β → σ) (P : Nat → σ → Prop) (xs : List β) (i0 : Nat) (s0 : σ)
+    (h0 : P i0 s0)
+    (hstep : ∀ k (hk : k < xs.length) s, P (i0 + k) s → P (i0 + k + 1) (step (i0 + k) s (xs[k]'hk))) :
+    P (i0 + xs.length) (iterIdx step xs i0 s0) := by
+  induction xs generalizing i0 s0 with
+  | nil => simpa [iterIdx] using h0
+  | cons x xs ih =>
+    simp only [iterIdx, List.length_cons]
+    have e : i0 + (xs.length + 1) = (i0 + 1) + xs.length := by omega
+    rw [e]
+    apply ih
+    · have := hstep 0 (by simp) s0 (by simpa using h0)
+      simpa only [Nat.add_zero, List.getElem_cons_zero] using this
+    · intro k hk s hs
+      have := hstep (k + 1) (by simp; omega) s (by rw [← Nat.add_assoc, Nat.add_right_comm]; exact hs)
+      simpa only [Nat.add_assoc, Nat.add_comm 1 k, List.getElem_cons_succ] using this
+
+/-- the same for the state after step `k` of a loop started at index 0 -/
+theorem stateAt_inv (step : Nat → σ → β → σ) (P : Nat → σ → Prop) (xs : List β) (s0 : σ)
+    (h0 : P 0 s0)
+    (hstep : ∀ k (hk : k < xs.length) s, P k s → P (k + 1) (step k s (xs[k]'hk)))
+    (k : Nat) (hk : k < xs.length) : P (k + 1) (stateAt step xs s0 k) := by
+  unfold stateAt
+  have hlen : (xs.take (k + 1)).length = k + 1 := by simp; omega
+  have := iterIdx_inv step P (xs.take (k + 1)) 0 s0 (by simpa using h0) (by
+    intro j hj s hs
+    rw [hlen] at hj
+    have hj' : j < xs.length := by omega
+    have e : (xs.take (k + 1))[j]'(by rw [hlen]; exact hj) = xs[j]'hj' := by simp
+    rw [e]
+    simpa using hstep j hj' s (by simpa using hs))
+  rw [hlen] at this
+  simpa using this
+
 /-! ### `firstHit` -/
 
 /-- A fold whose states carry a "set once" index (`get`), set at the first step whose new
